@@ -26,6 +26,7 @@ ASSUMPTIONS = [
 ]
 
 REPO_SCRIPTS = None
+NC_FORMATS = ["NETCDF4", "NETCDF4_CLASSIC", "NETCDF3_CLASSIC", "NETCDF3_64BIT_OFFSET", "NETCDF3_64BIT_DATA"]
 
 
 def scripts_dir():
@@ -44,6 +45,7 @@ def strategy(tier):
                   "time_dtype": draw(st.sampled_from(["f8", "f8", "i4"])),
                   "with_altitude": draw(st.sampled_from([True, True, False])),
                   "with_location": draw(st.sampled_from([True, True, False])),
+                  "nc_format": draw(st.sampled_from(["NETCDF4", "NETCDF4", "NETCDF4"] + NC_FORMATS)),
                   "metric": draw(st.sampled_from(["mae", "rmse", "corr", "obs", "ets", "bs", "pit", "quantilescore"])),
                   "axis": draw(st.sampled_from(["no", "time", "leadtime", "location"]))}
         return {"spec": spec, "layout": layout}
@@ -169,7 +171,8 @@ def check_agree(case, ctx):
     nc = os.path.join(base, "data.nc")
     txt = os.path.join(base, "data.txt")
     mat.write_netcdf(d, spec, nc, missing=layout["missing"], dtype=layout["dtype"], time_dtype=layout["time_dtype"],
-                     with_altitude=layout["with_altitude"], with_location=layout["with_location"])
+                     with_altitude=layout["with_altitude"], with_location=layout["with_location"],
+                     nc_format=layout.get("nc_format", "NETCDF4"))
     mat.write_text(d, spec, txt)
     fams = sum(1 for k in ("cdf", "qs", "ens", "pit", "other") if d.get(k))
     has_missing = any(v is None for pl in d["fcst"] for row in pl for v in row)
@@ -317,7 +320,8 @@ def detect_strategy(tier):
     def s(draw):
         spec = draw(gen.dataset(max_inputs=1, clim=False, flavor="det", core_max=2, extra_max=0, allow_drop=False, allow_obsless=False))
         return {"spec": spec, "nc_name": draw(st.sampled_from(["data", "data.txt", "data.dat", "data.csv", "nc"])),
-                "txt_name": draw(st.sampled_from(["table.nc", "table", "table.nc4", "table.netcdf"]))}
+                "txt_name": draw(st.sampled_from(["table.nc", "table", "table.nc4", "table.netcdf"])),
+                "nc_format": draw(st.sampled_from(NC_FORMATS))}
     return s()
 
 
@@ -331,10 +335,11 @@ def check_detect(case, ctx):
     os.makedirs(base)
     nc = os.path.join(base, case["nc_name"])
     txt = os.path.join(base, case["txt_name"])
-    mat.write_netcdf(d, spec, nc)
+    mat.write_netcdf(d, spec, nc, nc_format=case.get("nc_format", "NETCDF4"))
     mat.write_text(d, spec, txt)
     ctx.evals += 1
-    ctx.nt((case["nc_name"], case["txt_name"], d["fcst"]))
+    ctx.label("detect/format=" + case.get("nc_format", "NETCDF4"))
+    ctx.nt((case["nc_name"], case["txt_name"], case.get("nc_format"), d["fcst"]))
     try:
         a = verif.input.get_input(nc)
         b = verif.input.get_input(txt)
